@@ -6,9 +6,10 @@ import re
 import common
 import conc
 import driver
+from props import c15_replay
 
 PROPERTIES_FILE = "Properties/Properties_C15.v"
-COQ_DEPS = ["Proofs/SrcData_proofs.vo", "Proofs/SrcLane_proofs.vo"]
+COQ_DEPS = ["Proofs/SrcData_proofs.vo", "Proofs/SrcLane_proofs.vo", "Proofs/SrcLaneR_proofs.vo"]
 GEN_MODULES = ["Gen_srcdata", "Gen_dqstate"]
 LEVEL = "proof"
 TRUSTED = [
@@ -100,6 +101,8 @@ def project(evs, C, stats):
             inmerge = False
             out.append(e)
             continue
+        if e.kind == 113:
+            continue   # READY mark: start of the global replay (lib/props/c15_replay.py), not an event of the automaton
         if inmerge or e.kind >= 100 or e.off == 0:
             out.append(e)
             continue
@@ -277,6 +280,9 @@ def correspond(ctx):
     C = gen_consts()
     nproc, rounds = (9, 12) if ctx.tier == "quick" else (45, 18)
     fails, mism, alltr, total = [], [], [], {}
+    C2 = dict(C)
+    C2["LINE_wakeup_loop"] = c15_replay.site_lines().get("wakeup_loop", -1)
+    rjobs, rmeta, rstats = [], [], {}
     for i in range(nproc):
         seed = ctx.seed * 1000 + i
         permille = [0, 150, 400][i % 3]
@@ -287,6 +293,23 @@ def correspond(ctx):
         alltr += [(sv, t, rd, thr, seed) for (sv, t, rd, thr) in tr]
         for k, v in st.items():
             total[k] = total.get(k, 0) + v
+        # the same recording, as a run of the global lane model
+        j_, m_, mm_, rs_ = c15_replay.replay_text(text, "seed%d" % seed, C2)
+        rjobs += j_
+        rmeta += m_
+        mism += mm_
+        for k, v in rs_.items():
+            rstats[k] = rstats.get(k, 0) + v
+    import threading
+    rbox = {}
+
+    def do_replay():
+        try:
+            rbox["res"] = c15_replay.coq_replay("c15_replay", rjobs)
+        except Exception as ex:   # noqa
+            rbox["err"] = str(ex)
+    rth = threading.Thread(target=do_replay)
+    rth.start()
     res, err = [], None
     pairs = [(sv, t) for (sv, t, _, _, _) in alltr]
     nparts = 4
@@ -320,6 +343,15 @@ def correspond(ctx):
                          "(SrcData.tstep): the implementation took a step the model does not have",
                          "detail": {"seed": seed, "round": rd, "thread": thr, "kind_qos": sv, "rejected_at": i,
                                     "ended_idle": idle, "around": [e.brief() for e in t[lo:(i + 3 if i >= 0 else len(t))]]}})
+    rth.join()
+    if "err" in rbox:
+        mism.append({"what": "the global replay on SrcLane.gstep could not be evaluated in Coq", "detail": rbox["err"][-1500:]})
+    else:
+        mm_, nrep = c15_replay.judge(rmeta, rbox["res"], C2)
+        mism += mm_
+        rstats["rounds_replayed"] = nrep
+    for k, v in rstats.items():
+        total["replay_" + k] = v
     distinct = len(set(shape(t) for (_, t, _, _, _) in alltr))
     mergers = [x for x in alltr if any(e.kind == 100 for e in x[1])][:2]
     drainers = [x for x in alltr if any(e.kind == 3 for e in x[1])][:2]
